@@ -184,3 +184,39 @@ Fixpoint crun (conv : conv_fn memdict) (c : cctx) (ops : list cop) : outcome cct
                  | Err x => Err x | Panic s => Panic s | OutOfFuel => OutOfFuel
                  end
   end.
+
+(* ---- the query functions of the C API: projections of the context (capi/src/io.rs) ---- *)
+(* chewing_commit_Check / buffer_Check / buffer_Len / bopomofo_Check / cursor_Current / cand_CheckDone /
+   cand_TotalPage / cand_ChoicePerPage / cand_TotalChoice / cand_CurrentPage / aux_Check / aux_Length /
+   keystroke_CheckIgnore / keystroke_CheckAbsorb / get_KBType, in this order; the strings (commit, pre-edit
+   buffer, the candidates chewing_cand_Enumerate walks - from the first one of the current page -, aux) are
+   returned beside them.  The pre-edit string is Editor::display(), i.e. the conversion - it is passed in. *)
+Definition bz (b : bool) : Z := if b then 1 else 0.
+
+Definition c_flags (c : cctx) : list Z :=
+  let e := cx_ed c in
+  let s := sh e in
+  [ bz (negb (match commit_buf s with [] => true | _ => false end));
+    bz (negb (Nat.eqb (ce_len (com s)) 0));
+    Z.of_nat (ce_len (com s));
+    bz (negb (so_is_empty lay_ops (syl s)));
+    Z.of_nat (cursor (com s));
+    bz (negb (is_selecting_b e));
+    match ml_total_page e with Ok (Some n) => Z.of_nat n | _ => 0 end;
+    Z.of_nat (o_per_page (opts s));
+    match ml_candidates e with Ok (Some l) => Z.of_nat (List.length l) | _ => 0 end;
+    match ed_page_no e with Some n => Z.of_nat n | None => 0 end;
+    bz (negb (match notice s with [] => true | _ => false end));
+    Z.of_nat (List.length (notice s));
+    bz (behavior_eqb (last s) BIgnore);
+    bz (behavior_eqb (last s) BAbsorb);
+    Z.of_N (cx_kbcompat c) ].
+
+Definition c_commit_string (c : cctx) : list N := commit_buf (sh (cx_ed c)).
+Definition c_aux_string (c : cctx) : list N := notice (sh (cx_ed c)).
+Definition c_cand_enumerate (c : cctx) : list (list N) :=
+  let e := cx_ed c in
+  match ml_candidates e, ed_page_no e with
+  | Ok (Some l), Some pg => skipn (pg * o_per_page (opts (sh e))) l
+  | _, _ => []
+  end.
